@@ -204,6 +204,7 @@ class Renderer:
 
     def block(self, lo, hi, ind):
         n0 = len(self.out.lines)
+        pending = []        # calls of deferred functions: at the end of this block
         i = lo
         while i <= hi:
             it = self.p[i]
@@ -247,7 +248,11 @@ class Renderer:
                         nxt += 1
                     self.emit(ind, head + '):', marks)
                     self.block(nxt, c - 1, ind + 1)
-                    self.emit(ind, 'f_%d(%s)' % (i, ', '.join(str(pi) for pi in ps)))
+                    call = 'f_%d(%s)' % (i, ', '.join(str(pi) for pi in ps))
+                    if it.get('d'):
+                        pending.append(call)
+                    else:
+                        self.emit(ind, call)
                 elif k == 'class':
                     nxt = i + 1
                     if nxt < c and self.p[nxt]['t'] == 'huse':
@@ -261,6 +266,8 @@ class Renderer:
             else:
                 raise ValueError('item %r not allowed in a statement scope' % (it,))
             i += 1
+        for call in pending:
+            self.emit(ind, call)
         if len(self.out.lines) == n0:
             self.emit(ind, 'pass')
 
@@ -335,8 +342,13 @@ def _wrap(body):
             out.append(st)
         elif isinstance(st, ast.FunctionDef) and st.name.startswith('f_'):
             st.body = _wrap(st.body)
-            out.append(_try([st, body[k + 1]]))   # def + its single call fail or succeed together
-            k += 1
+            nxt = body[k + 1] if k + 1 < len(body) else None
+            if isinstance(nxt, ast.Expr) and isinstance(nxt.value, ast.Call) and \
+                    isinstance(nxt.value.func, ast.Name) and nxt.value.func.id == st.name:
+                out.append(_try([st, nxt]))   # def + its immediate call fail or succeed together
+                k += 1
+            else:
+                out.append(_try([st]))        # deferred call: the header has no loads, def cannot fail
         elif isinstance(st, ast.ClassDef) and st.name.startswith('C_'):
             st.body = _wrap(st.body)
             out.append(_try([st]))
